@@ -159,7 +159,35 @@ def run(cx):
         src = pa.iter_source(g, ("call", k[1], k[2], ())) if k[0] == "call" else None
         okk = okk and src is not None and src[0][0] == "param" and src[0][1] == 1
     cx.ob("C07.R5", "fill_outputs:same-keys", okk, "fill_outputs inserts only keys taken from the map it is given (%d insertions)" % len(ins), g.loc())
-    cx.floor("C07.R5", 4)
+    # a declared name without a value ("filled from scope") is looked up with Task::find - the task's own data first, then every
+    # enclosing scope - under the same name; reading the task's own data only loses what a child wrote into the step / workflow
+    finds = [c for c in g.calls() if re.search(r"Task::find(::<.*>)?$", c.q)]
+    okf = False
+    for c in finds:
+        k = pv.root(g, c.args[1]) if len(c.args) > 1 else ("?",)
+        src = pa.iter_source(g, ("call", k[1], k[2], ())) if k[0] == "call" else None
+        same = src is not None and src[0][0] == "param" and src[0][1] == 1
+        fed = any(pv.root(g, i.args[2])[:3] == ("call", c.q, c.b) or _feeds(g, pv, c, i) for i in ins if len(i.args) > 2)
+        okf = okf or (same and fed)
+    cx.ob("C07.R5", "fill_outputs:scope-lookup", okf,
+          "a declared output without a value is filled by Task::find (own data, then every enclosing scope) under the same name and that value is what is inserted (%d find call(s))" % len(finds),
+          finds[0].loc if finds else g.loc())
+    cx.floor("C07.R5", 5)
+
+
+def _feeds(g, pv, c, ins):
+    """does the result of call c (an Option) reach the value argument of the insertion `ins` through a downcast / unwrap?"""
+    r = pv.root(g, ins.args[2])
+    for _ in range(6):
+        if r[:3] == ("call", c.q, c.b):
+            return True
+        if r[0] == "call" and re.search(r"Clone>::clone$|Option::<T>::(unwrap|unwrap_or|unwrap_or_else|unwrap_or_default|expect)$", r[1]):
+            from vlib.model import Call
+            cc = Call(g, r[2])
+            r = pv.root(g, cc.args[0]) if cc.args else ("?",)
+            continue
+        break
+    return False
 
 
 def _strip(f, pa, r):
